@@ -20,7 +20,7 @@ cat $LIST | xargs -P $JOBS -L 1 bash -c 'one "$0" "$1" "$2" "$3"'
 bad=0
 while read kind name patch props; do
   if [ $kind = refactor ]; then
-    if grep -q "^SILENT" $OUT/$name.out; then :; else bad=$((bad+1)); echo "FALSE-ALARM $name: $(grep -E '^(VIOLATED|UNDECIDED|INFRA|PATCH)' $OUT/$name.out | awk '{print $2}' | tr '\n' ' ' | cut -c1-300)"; fi
+    if grep -q "^SILENT" $OUT/$name.out; then :; elif [ -f /verif/variants/refactor/$name/LIMIT.md ]; then echo "KNOWN-LIMIT $name (see LIMIT.md)"; else bad=$((bad+1)); echo "FALSE-ALARM $name: $(grep -E '^(VIOLATED|UNDECIDED|INFRA|PATCH)' $OUT/$name.out | awk '{print $2}' | tr '\n' ' ' | cut -c1-300)"; fi
   else
     if grep -qE "^(VIOLATED|UNDECIDED)" $OUT/$name.out; then :; else bad=$((bad+1)); echo "MISSED $name: $(head -2 $OUT/$name.out | tr '\n' ' ')"; fi
   fi
